@@ -69,7 +69,7 @@ func ConverterErr[T any, O any](op func(T) (O, error)) Transform[T, O] {
 // producing a new iterator with the output values. The processing is
 // performed serially and lazily and respects ErrIteratorSkip.
 func (mpf Transform[T, O]) Process(iter *Iterator[T]) *Iterator[O] {
-	return mpf.Producer(iter.ReadOne).IteratorWithHook(func(out *Iterator[O]) { out.AddError(iter.Close()) })
+	return mpf.Producer(iter.readOrFail).Iterator()
 }
 
 // ProcessParallel runs the input iterator through the transform
